@@ -66,8 +66,10 @@ class ProbeKernel(ModelMixin, TransitionMixin, TuningMixin):
     needs_history: ClassVar[bool] = False
 
     def __init__(self, position_keys, kidx=0, cap=256, needs_history=False, error_table=None,
-                 all_keys=None, identifier=""):
+                 all_keys=None, identifier="", tune_error_chains=()):
         self.position_keys = tuple(position_keys)
+        # chains (by the "chain" entry of the model state) in which tune() and end_warmup() report error code 1
+        self.tune_error_chains = tuple(tune_error_chains)
         self._model = None
         self.identifier = identifier
         self.kidx = kidx
@@ -173,8 +175,15 @@ class ProbeKernel(ModelMixin, TransitionMixin, TuningMixin):
             fl = [h2[0], h2[-1], jnp.sum(h2), float(len(history))]
         st = self._rec(kernel_state, prng_key, 5, epoch, x0=hl, x1=slow, fl=fl)
         st.version = st.version + 1
-        info = DefaultTuningInfo(error_code=jnp.asarray(0, jnp.int32), time=epoch.time)
+        info = DefaultTuningInfo(error_code=self._tune_code(model_state), time=epoch.time)
         return TuningOutcome(info, st)
+
+    def _tune_code(self, model_state):
+        code = jnp.asarray(0, jnp.int32)
+        chain = self._chain_id(model_state)
+        for c in self.tune_error_chains:
+            code = jnp.where(chain == c, jnp.asarray(1, jnp.int32), code)
+        return code
 
     def _tune_fast(self, prng_key, kernel_state, model_state, epoch, history):
         return self._tune(0, prng_key, kernel_state, model_state, epoch, history)
@@ -186,7 +195,7 @@ class ProbeKernel(ModelMixin, TransitionMixin, TuningMixin):
         st = self._rec(kernel_state, prng_key, 6, None,
                        x0=-1 if tuning_history is None else 1)
         st.version = st.version + 1
-        return WarmupOutcome(error_code=jnp.asarray(0, jnp.int32), kernel_state=st)
+        return WarmupOutcome(error_code=self._tune_code(model_state), kernel_state=st)
 
 
 class NullKernel(ProbeKernel):
